@@ -38,7 +38,13 @@ def pretty_attrs(value, ctx):
                 display_attr = True
 
         if display_attr:
-            kwargs.append((attribute.name, getattr(value, attribute.name)))
+            # The __init__ argument of a private attribute has no
+            # leading underscore (``alias`` on attrs >= 22.2).
+            init_name = (
+                getattr(attribute, 'alias', None) or
+                attribute.name.lstrip('_')
+            )
+            kwargs.append((init_name, getattr(value, attribute.name)))
 
     return pretty_call_alt(ctx, cls, kwargs=kwargs)
 
